@@ -11,10 +11,14 @@ Harness:
   B. whole modules with nested scopes (functions with every parameter kind, lambdas, classes,
      comprehensions, global/nonlocal, imports incl. star-import of a generated project module):
      CPython executes the instrumented module, every successful read is checked against lint and
-     (sampled) assist of the real code. No model in between (inter-scope: see partial note).
+     (sampled) assist of the real code. No model in between.
   C. real files (stdlib + repo): E42 must not occur; E02 must not occur at reads that a
      conservative static oracle knows to succeed (parameters, names bound by an unconditional
-     top-level statement, builtins never rebound)."""
+     top-level statement, builtins never rebound).
+  D. chains of nested function scopes (depth 2-4, the nested def at any top-level position of the
+     enclosing body): (I) Model/Nested.v (entry = own locals unbound + the enclosing scope's final
+     environment) vs supp's alternatives and E02 sites at every read of every level; the composed
+     theorem C01_nested_visible speaks about exactly that analysis."""
 import ast
 import builtins
 import os
@@ -26,7 +30,7 @@ from props import reach_common as rc
 
 LEVEL = 'proof'
 ASSUMPTIONS = [
-    'one-scope theorem (any exits) proved; the inter-scope part is covered by the lemma C01_exported_defines_all_bound + the scope-ownership theorem of C05 and, end to end, by generator B executed under CPython (partial: no single Coq theorem composes frames/cells/class namespaces)',
+    'one-scope theorem (any exits) proved and composed along chains of nested function scopes (C01_nested_visible; premise rt_env = Python LEGB rule, modelled); class namespaces, comprehension scopes, global/nonlocal, imports are covered by C05\'s ownership theorem and, end to end, by generator B executed under CPython (partial: not in the composed theorem)',
     'names created through exec/eval/globals()/locals()/setattr, match statements, PEP 695 type parameters, except*, del are outside the domain',
     'builtins = dir(builtins) of the running interpreter',
 ]
@@ -404,6 +408,113 @@ KNOWN = {
 }
 
 
+def render_nested(bodies, splits):
+    """def main(...): <body 0 with `def inner1():` placed before statement splits[0]>, whose body is
+    body 1 with `def inner2():` placed before statement splits[1], ...  Returns (source, reads, binds)."""
+    import re
+    r = pygen.Renderer(False)
+    r.lines.extend(pygen.HEADER_PLAIN['func'].split('\n'))
+
+    def level(k, ind):
+        body = bodies[k]
+        if k + 1 < len(bodies):
+            j = splits[k]
+            r.body(body[:j], ind)
+            r.emit(ind, 'def inner%d():' % (k + 1))
+            level(k + 1, ind + 1)
+            r.body(body[j:], ind)
+        else:
+            r.body(body, ind)
+    level(0, 1)
+    reads, binds, out = {}, {}, []
+    for ln, line in enumerate(r.lines, 1):
+        while True:
+            m = pygen.MARK.search(line)
+            if not m:
+                break
+            col = m.start()
+            line = line[:m.start()] + line[m.end():]
+            ident = re.match(r'\w+', line[col:]).group()
+            site = int(m.group(2))
+            ident = r.hnames.get(site, ident)
+            (reads if m.group(1) == 'r' else binds)[site] = (ln, col, ident)
+        out.append(line)
+    return '\n'.join(out) + '\n', reads, binds
+
+
+NESTED_PRELUDE = rc.CHECK_PRELUDE + '''
+(* (I) for Model/Nested.v: supp's alternatives at every read of the body [ci] nested in [outers],
+   and the E02 sites among its reads *)
+Definition check_nested (k : list cmd * cmd * list (N * list alt) * list N) : bool :=
+  match k with
+  | (outers, ci, obs, e02s) =>
+      forallb (fun ra => set_eq_alt (seen_nested outers ci (fst ra)) (snd ra)) obs &&
+      set_eq_N (filter (fun r => e02_nested outers ci r) (map fst (reads ci))) e02s
+  end.
+'''
+
+
+def part_d(ctx):
+    """chains of nested function scopes: (I) Model/Nested.v vs supp at every level"""
+    cov = ctx.coverage
+    nchain = ctx.pick(60, 500)
+    terms, meta = [], []
+    depth_hist = {}
+    for k in range(nchain):
+        depth = ctx.rng.choice([2, 2, 3, 3, 4])
+        names = ctx.rng.choice([pygen.POOL[:3], pygen.POOL[:4], pygen.POOL])
+        g = pygen.Gen(ctx.rng, allow_return=True, exits=True, max_stmts=6, names=names)
+        bodies, ranges = [], []
+        for _ in range(depth):
+            lo = g.site
+            g.budget = g.max_stmts
+            g.loop_depth = 0
+            bodies.append(g.program(lo=2, hi=4, prologue=ctx.rng.choice([0.2, 0.5])))
+            ranges.append((lo, g.site))
+        splits = [ctx.rng.randrange(0, len(b)) for b in bodies]
+        try:
+            src, reads, binds = render_nested(bodies, splits)
+            obs = rc.observe_supp(ctx, src, reads, binds)
+        except Exception as e:
+            ctx.violation('supp raised %s: %s on a generated chain of nested functions' % (type(e).__name__, e),
+                          {'kind': 'crash-D', 'bodies': bodies, 'splits': splits})
+            continue
+        depth_hist[depth] = depth_hist.get(depth, 0) + 1
+        if obs['unknown_alt']:
+            ctx.violation('supp lists a definition that is no binding site of the program: %r' % (obs['unknown_alt'][:2],),
+                          {'kind': 'direct-D', 'source': src})
+            continue
+        for lvl in range(depth):
+            lo, hi = ranges[lvl]
+            items = []
+            for site in sorted(obs['seen']):
+                if not (lo < site <= hi):
+                    continue
+                v = obs['seen'][site]
+                if v == 'E42':
+                    v = []
+                items.append('(%d, [%s])' % (site, '; '.join(rc.alt_term(a) for a in v)))
+            e02s = sorted(s_ for s_ in (obs['e02'] | obs['e42']) if lo < s_ <= hi)
+            free = any(lo < s_ <= hi and any(a is not None and not (lo < a <= hi) for a in (obs['seen'][s_] if obs['seen'][s_] != 'E42' else []))
+                       for s_ in obs['seen'])
+            ctx.count(('D', src, lvl), nontrivial=free)
+            terms.append('([%s], %s, [%s], [%s])' % ('; '.join(pygen.body_coq(b) for b in bodies[:lvl]), pygen.body_coq(bodies[lvl]),
+                                                    '; '.join(items), '; '.join(str(x) for x in e02s)))
+            meta.append((src, lvl, bodies, splits))
+        if k < 1:
+            ctx.sample({'part': 'D', 'source': src, 'supp_alternatives': {str(a): b for a, b in obs['seen'].items()}})
+    bad = ctx.run_cases(rc.IMPORTS + ['Model.Nested'], NESTED_PRELUDE, 'check_nested', terms, shard=150)
+    cov['D_chains'] = nchain
+    cov['D_chain_depths'] = {str(a): b for a, b in sorted(depth_hist.items())}
+    cov['D_levels_compared'] = len(terms)
+    cov['D_disagreements'] = len(bad)
+    if bad:
+        src, lvl, bodies, splits = meta[bad[0]]
+        ctx.violation('(I) correspondence Model/Nested.v vs supp no longer checks on %d scope levels of generated chains of nested functions' % len(bad),
+                      {'kind': 'correspondence-nested', 'theorem': 'C01_nested_visible (model tie)', 'source': src, 'level': lvl,
+                       'bodies': bodies, 'splits': splits}, found_input=False)
+
+
 def known_findings(ctx):
     """re-run the committed inputs of the open findings; print KNOWN-FINDING only if they still fail"""
     from supp.project import Project
@@ -436,6 +547,7 @@ def run(ctx):
     part_a(ctx)
     part_b(ctx)
     part_c(ctx)
+    part_d(ctx)
     known_findings(ctx)
     if not proof_ok:
         ctx.violation('proof obligations of Props/C01.v not discharged: %s' % ctx.notes,
